@@ -773,6 +773,9 @@ func finish(p Property, c *Ctx, ff *FindingsFile, all []Result, start time.Time,
 		for _, m := range brokenMsgs {
 			fmt.Println("BROKEN:", m)
 		}
+		if harnessBroken {
+			fmt.Println("BROKEN: the race detector reported a race whose frames are all harness code (see .work/race/" + p.ID() + "); no verdict")
+		}
 	}
 	if len(distinct) < 2 && !broken && len(unlisted) == 0 {
 		fmt.Printf("BROKEN: run observed too little (distinct non-trivial cases: %d)\n", len(distinct))
